@@ -849,16 +849,12 @@ namespace
         {
             return {};
         }
+        // array deleteRange [from, count]
         auto from = sqf::runtime::util::round_to<int>((*right.data<d_array>())[0].data<d_scalar, float>());
-        auto to = sqf::runtime::util::round_to<int>((*right.data<d_array>())[1].data<d_scalar, float>());
+        auto count = sqf::runtime::util::round_to<int>((*right.data<d_array>())[1].data<d_scalar, float>());
 
         auto arr = left.data<d_array>();
-        if (from > to)
-        {
-            runtime.__logmsg(err::StartIndexExceedsToIndexWeak(runtime.context_active().current_frame().diag_info_from_position(), from, to));
-            to = from;
-        }
-        if (from < 0)
+        if (from < 0 || count < 0)
         {
             runtime.__logmsg(err::NegativeIndexWeak(runtime.context_active().current_frame().diag_info_from_position()));
             runtime.__logmsg(err::ReturningNil(runtime.context_active().current_frame().diag_info_from_position()));
@@ -869,12 +865,12 @@ namespace
             runtime.__logmsg(err::IndexOutOfRangeWeak(runtime.context_active().current_frame().diag_info_from_position(), arr->size(), from));
             return {};
         }
-        if (to >= (int)arr->size())
-        {
-            runtime.__logmsg(err::IndexOutOfRangeWeak(runtime.context_active().current_frame().diag_info_from_position(), arr->size(), to));
-            to = (int)(arr->size() - 1);
+        if (count > (int)arr->size() - from)
+        { // everything from the start index on
+            runtime.__logmsg(err::IndexOutOfRangeWeak(runtime.context_active().current_frame().diag_info_from_position(), arr->size(), (size_t)from + (size_t)count - 1));
+            count = (int)arr->size() - from;
         }
-        arr->erase(arr->begin() + from, arr->begin() + to + 1);
+        arr->erase(arr->begin() + from, arr->begin() + from + count);
         return {};
     }
     value pushback_array_any(runtime& runtime, value::cref left, value::cref right)
